@@ -12,7 +12,7 @@ use arrow::compute;
 use arrow::compute::kernels::boolean;
 use arrow::compute::kernels::cmp;
 use arrow::compute::kernels::numeric;
-use arrow::datatypes::{DataType, IntervalDayTime, SchemaRef};
+use arrow::datatypes::{DataType, IntervalDayTime, Schema, SchemaRef};
 use arrow::record_batch::RecordBatch;
 use arrow_select::zip::zip;
 use async_trait::async_trait;
@@ -407,8 +407,20 @@ fn evaluate_expr_internal(
 }
 
 fn find_column_index(batch: &RecordBatch, col: &Column) -> Result<usize> {
-    let schema = batch.schema();
+    resolve_column_index(batch.schema().as_ref(), col)
+}
 
+/// Resolve a column reference against PHYSICAL field names, which may or may
+/// not carry a relation qualifier ("n1.n_name" / "n_name").
+///
+/// An exact match of the qualified name always wins. The looser fallbacks
+/// (same unqualified name, then any field ending in ".name") exist because
+/// physical names do not always carry the qualifier the reference uses; they
+/// are only sound when they single out ONE field. A QUALIFIED reference that
+/// falls back onto several equally named fields is an error rather than a
+/// silent read of whichever comes first: `y.v` over the columns of
+/// `c AS x JOIN c AS y` must never be answered with `x`'s `v`.
+pub(crate) fn resolve_column_index(schema: &Schema, col: &Column) -> Result<usize> {
     // Try qualified name first (e.g., "n1.n_nationkey")
     if let Some(relation) = &col.relation {
         let qualified = format!("{}.{}", relation, col.name);
@@ -417,17 +429,46 @@ fn find_column_index(batch: &RecordBatch, col: &Column) -> Result<usize> {
         }
     }
 
+    let pick = |candidates: Vec<usize>| -> Option<Result<usize>> {
+        match candidates.as_slice() {
+            [] => None,
+            [idx] => Some(Ok(*idx)),
+            [first, ..] => Some(if col.relation.is_some() {
+                Err(QueryError::Internal(format!(
+                    "ambiguous column reference {}: matches {} fields named {:?}",
+                    col.qualified_name(),
+                    candidates.len(),
+                    schema.field(*first).name()
+                )))
+            } else {
+                Ok(*first)
+            }),
+        }
+    };
+
     // Try unqualified name exactly (e.g., "n_nationkey")
-    if let Ok(idx) = schema.index_of(&col.name) {
-        return Ok(idx);
+    let exact: Vec<usize> = schema
+        .fields()
+        .iter()
+        .enumerate()
+        .filter(|(_, f)| f.name() == &col.name)
+        .map(|(i, _)| i)
+        .collect();
+    if let Some(found) = pick(exact) {
+        return found;
     }
 
     // Try to find a field that ends with ".{column_name}" (for unqualified lookups on qualified schema)
     let suffix = format!(".{}", col.name);
-    for (i, field) in schema.fields().iter().enumerate() {
-        if field.name().ends_with(&suffix) || field.name() == &col.name {
-            return Ok(i);
-        }
+    let by_suffix: Vec<usize> = schema
+        .fields()
+        .iter()
+        .enumerate()
+        .filter(|(_, f)| f.name().ends_with(&suffix))
+        .map(|(i, _)| i)
+        .collect();
+    if let Some(found) = pick(by_suffix) {
+        return found;
     }
 
     Err(QueryError::ColumnNotFound(col.qualified_name()))
@@ -6326,6 +6367,49 @@ mod tests {
             ],
         )
         .unwrap()
+    }
+
+    #[test]
+    fn test_resolve_column_index() {
+        let schema = |names: &[&str]| {
+            Schema::new(
+                names
+                    .iter()
+                    .map(|n| Field::new(*n, DataType::Int64, true))
+                    .collect::<Vec<_>>(),
+            )
+        };
+
+        // The exact qualified name wins over every looser match
+        let s = schema(&["x.k", "x.v", "y.k", "y.v", "v"]);
+        let y_v = Column::new_qualified("y", "v");
+        assert_eq!(resolve_column_index(&s, &y_v).unwrap(), 3);
+
+        // A single candidate is unambiguous whatever qualifier it carries
+        let s = schema(&["k", "t0.v"]);
+        assert_eq!(resolve_column_index(&s, &y_v).unwrap(), 1);
+        let x_k = Column::new_qualified("x", "k");
+        assert_eq!(resolve_column_index(&s, &x_k).unwrap(), 0);
+
+        // A qualified reference never settles for the first of several
+        // equally named fields (both sides of a self-join of one derived table)
+        for names in [
+            &["k", "v", "k", "v"][..],
+            &["t0.k", "t0.v", "t0.k", "t0.v"][..],
+        ] {
+            assert!(matches!(
+                resolve_column_index(&schema(names), &y_v),
+                Err(QueryError::Internal(_))
+            ));
+        }
+
+        // Unqualified references keep resolving to the first match
+        let s = schema(&["x.k", "x.v", "y.k", "y.v"]);
+        assert_eq!(resolve_column_index(&s, &Column::new("v")).unwrap(), 1);
+        assert!(matches!(
+            resolve_column_index(&s, &Column::new("w")),
+            Err(QueryError::ColumnNotFound(_))
+        ));
     }
 
     #[tokio::test]
